@@ -11,7 +11,7 @@ def verdict (cfg : Cfg) (p : Program) (impl : String) : String × Bool :=
   | [a, b] =>
     let nt := cfg.workers > 1 && (heads p).any (fun h => !selfRec p h && parSafe (clausesOf p h)) && a != "{}" && !a.startsWith "err:"
     if a == b then (specOk, nt)
-    else (specFail "unclassified" s!"one={a}", nt)
+    else (specFail "unclassified" "workers-differ", nt)
   | _ => (specFail "unclassified" "unparsable-impl-output", false)
 
 /-- `c03.run sssss:W:0 | items` → `answer with 1 worker / answer with W workers`. -/
@@ -35,6 +35,20 @@ def parity3 : Tuple → Nat
   | (.i64 n) :: _ => n.toNat % 3
   | _ => 0
 
-def handlers : List (String × Handler) := [("c03.run", runH), ("c03.hash", hashH)]
+/-- `c03.rank cfg <iql-hex> | facts`: ranking aggregates (`top_k`, `top_k_threshold`,
+    `within_radius`) are not in the Datalog AST / engine model; the program travels as IQL text, the
+    model column echoes (no correspondence claim) and the Spec — answer with W workers = answer with
+    one worker, as sets — is judged on the two real answers. -/
+def rankH : Handler := fun args impl =>
+  match args with
+  | c :: _ :: _ =>
+    match cfgOfWire c, impl.splitOn " / " with
+    | some cfg, [a, b] =>
+      let nt := cfg.workers > 1 && a != "{}" && !a.startsWith "err:"
+      { model := impl, spec := if a == b then specOk else specFail "unclassified" "rank-workers-differ", nt := nt }
+    | _, _ => { model := impl, spec := specFail "unclassified" "unparsable-impl-output", nt := false }
+  | _ => badReq
+
+def handlers : List (String × Handler) := [("c03.run", runH), ("c03.hash", hashH), ("c03.rank", rankH)]
 
 end ILV.Drv.C03
